@@ -39,6 +39,7 @@ def run(ctx):
     _run_main(ctx)
     _shared_r4(ctx)
     _shared_r5(ctx)
+    _round8(ctx)
 
 
 def _run_main(ctx):
@@ -357,3 +358,10 @@ def _shared_r5(ctx):
     with ctx.rule('R03.9', "a returned message reaches the channel's current listener and a delivery its own consumer: re-registering replaces the listener, a server cancel removes one consumer only (shared with C13 / C11)", floor=3) as r:
         A.include(ctx, r, 'c13', 'R13.3', pick=('io-side:',))
         A.include(ctx, r, 'c11', 'R11.2', pick=('basic::Cancel',))
+
+
+def _round8(ctx):
+    """Rules that are necessary conditions of this property too (found by seeding round 8)."""
+    from rules import arms as A
+    with ctx.rule('R03.10', "a returned message is not dropped for lack of room: the return listener's queue is unbounded and registered as created (shared with C13)", floor=2) as r:
+        A.include(ctx, r, 'c13', 'R13.2', pick=('listen_for_returns',))
